@@ -361,9 +361,10 @@ class RawVoltageBackend(object):
                 if isinstance(directio, str):
                     directio = int(directio.replace("'", ""))
                 directio = directio != 0
-            except BaseException as err:
+            except Exception as err:
                 tqdm(f'Could not parse DIRECTIO value `{header_dict["DIRECTIO"]}` ({repr(err)}). Replacing with `0`.')
                 header_dict['DIRECTIO'] = 0
+                directio = False
 
         # Write each line with space and zero padding
         header_lines = 0
